@@ -545,6 +545,9 @@ pub fn run_check(prop: &str, tier: Tier, seed: u64) -> i32 {
         let trace = scenario::generate(prop, tier, seed, run);
         let first = death_violation(prop, d, &trace);
         let Some(first) = first else {
+            if std::env::var("VERIF_SHOW_DEATHS").is_ok() {
+                eprintln!("death not attributed to {prop}: run {run} reason {}", d.reason);
+            }
             other_property_deaths += 1;
             *agg.counters.entry(format!("death_not_this_property_{}", d.reason.split('(').next().unwrap_or("?"))).or_insert(0) += 1;
             continue;
